@@ -6,6 +6,7 @@ import RedisVerif.Props.C05
   executor-level machine `Txn.xstep`, both over the tiny concrete store `KV`.
 
     NEW                         → ok          fresh connection + empty store
+    RECONNECT                   → ok          the connection is dropped, a new one opened (store kept)
     C MULTI | DISCARD | UNWATCH → reply       input of the modelled connection
     C WATCH <n> <key>*          → reply
     C EXEC <slots> (<m> <cmd>{m}){slots}      EXEC with the other clients' commands per await slot
@@ -18,6 +19,12 @@ import RedisVerif.Props.C05
     DUMP                        → <n> (<key> S <val> | <key> L <m> <val>*)*
     XNEW / X <input> / XDUMP    the same for the executor-level machine (inputs: MULTI EXEC
                                 DISCARD UNWATCH, WATCH <n> <key>*, CMD <cmd>)
+    SNEW / S <client> <input> / SDUMP   ONE executor-level machine shared by several clients
+                                (`SimulationHarness::execute(client_id, …)`): the client id is ignored
+    RNEW / R <input> / RDUMP    the replicated front end (`ReplicatedShardedState::execute`)
+    TBL <inTxn> <errors> <w:0 none|1 same|2 changed> <qlen> <input class>
+                                → <reply class> <inTxn'> <errors'> <qlen' | -> <old watch armed 01 | -> <new key armed 01 | ->
+                                one cell of the connection-level decision table (`tableReply` …)
     <cmd> ::= GET k | SET k v | INCR k | APPEND k v | DEL k | RPUSH k <n> v* | LRANGE k | LLEN k
             | LSET k v (index 0) | LPOP k | HSET k f v | HDEL k f | SADD k m | SREM k m
             | ZADD k <int> m | ZREM k m | EXPIRE k | PERSIST k <had01> | EVICT k
@@ -178,13 +185,53 @@ structure St where
   store : KV.Store
   xt : ExTxn Nat KV.Cmd KV.Val
   xstore : KV.Store
+  sht : ExTxn Nat KV.Cmd KV.Val
+  shstore : KV.Store
+  rstore : KV.Store
 
-def St.init : St := { conn := ConnTxn.idle, store := [], xt := ExTxn.idle, xstore := [] }
+def St.init : St :=
+  { conn := ConnTxn.idle, store := [], xt := ExTxn.idle, xstore := [], sht := ExTxn.idle,
+    shstore := [], rstore := [] }
+
+def showRReply : RReply KV.Rep → String
+  | .ok => "+OK"
+  | .errUnknown => "-unknown-global"
+  | .plain r => showRep r
+
+def iclsOf : String → Option ICls
+  | "MULTI" => some .multi | "EXEC" => some .exec | "DISCARD" => some .discard
+  | "UNWATCH" => some .unwatch | "WATCH" => some .watch | "CMD" => some .cmd
+  | "UNK" => some .unknown | "CHAN" => some .chanStub | "LOCAL" => some .connLocal
+  | "PERR" => some .parseErr | "PROTO" => some .protoErr
+  | _ => none
+
+def showRCls : RCls → String
+  | .ok => "ok" | .queued => "queued" | .err e => showConnErr e | .nil => "nil"
+  | .results n => s!"results:{n}" | .plain => "plain"
+
+def showWAct : WAct → String
+  | .keep => "keep" | .clear => "clear" | .extend => "extend"
+
+def b01 (b : Bool) : String := if b then "1" else "0"
+
+/-- one cell, in the form the harness can OBSERVE on the real handler: the queue length only
+    when a probe EXEC would show it, the fate of the watched key only when a probe can tell -/
+def tblCell (inTxn errors : Bool) (w q : Nat) (c : ICls) : String :=
+  let nx := tableNext inTxn errors c
+  let wa := tableWatch inTxn c
+  let q' := if nx.1 && !nx.2 && w != 2 then toString (tableQueue inTxn q c) else "-"
+  let armed := if nx.1 && nx.2 then "-" else b01 (w != 0 && wa != .clear)
+  let newArmed := if c != .watch || w == 2 || (nx.1 && nx.2) then "-" else b01 (wa == .extend)
+  " ".intercalate [showRCls (tableReply inTxn errors (w == 2) q c), b01 nx.1, b01 nx.2, q', armed,
+    newArmed]
 
 def step (st : St) (line : String) : St × String :=
   match tokens line with
   | ["NEW"] => ({ st with conn := ConnTxn.idle, store := [] }, "ok")
   | ["XNEW"] => ({ st with xt := ExTxn.idle, xstore := [] }, "ok")
+  -- the modelled client's connection is closed and a new one opened: the connection-level state
+  -- goes away with it, the store stays (`abandoned_txn_has_no_effect`)
+  | ["RECONNECT"] => ({ st with conn := ConnTxn.idle }, "ok")
   | ["DUMP"] => (st, showStore st.store)
   | ["XDUMP"] => (st, showStore st.xstore)
   | ["XEVICT", k] =>
@@ -204,6 +251,28 @@ def step (st : St) (line : String) : St × String :=
       let r := KV.exec st.store c
       ({ st with store := r.1 }, showRep r.2)
     | _ => (st, "bad-op")
+  | ["SNEW"] => ({ st with sht := ExTxn.idle, shstore := [] }, "ok")
+  | ["SDUMP"] => (st, showStore st.shstore)
+  | ["RNEW"] => ({ st with rstore := [] }, "ok")
+  | ["RDUMP"] => (st, showStore st.rstore)
+  | "S" :: _client :: rest =>
+    match (xinputP.run rest) with
+    | some (inp, []) =>
+      let r := Txn.xsharedRun KV.xbackend (.simple .ok) st.sht st.shstore [(0, inp)]
+      match r.2.2 with
+      | [(_, rep)] => ({ st with sht := r.1, shstore := r.2.1 }, showXReply rep)
+      | _ => (st, "bad-op")
+    | _ => (st, "bad-op")
+  | "R" :: rest =>
+    match (xinputP.run rest) with
+    | some (inp, []) =>
+      let r := Txn.rstep KV.exec st.rstore inp
+      ({ st with rstore := r.1 }, showRReply r.2)
+    | _ => (st, "bad-op")
+  | ["TBL", a, e, w, q, c] =>
+    match a.toNat?, e.toNat?, w.toNat?, q.toNat?, iclsOf c with
+    | some a, some e, some w, some q, some c => (st, tblCell (a != 0) (e != 0) w q c)
+    | _, _, _, _, _ => (st, "bad-op")
   | "X" :: rest =>
     match (xinputP.run rest) with
     | some (inp, []) =>
